@@ -568,6 +568,7 @@ def rule_e(ck, R):
 
 
 def run(ck):
+    ck.rule('C02.g', 'validation depends on the table flag REG_TF_DURING_INIT (always-fail registers accept their default during initialisation only): the flag is written by register_init alone and is clear on every exit of it (C04.a re-evaluated)')
     ck.rule('C02.a', 'register_block_write: init test; n == 0 succeeds without effect; writable, mapped and well-formed checks each precede the only write and are returned unchanged on failure; touched marks only after a successful write')
     ck.rule('C02.b', 'ra_malformed_write: in each of the four orderings the overlay copies exactly the overlap [max(A,addr), min(A+S,addr+n)) (linear entailment), inside raw[] and the caller\'s n atoms; whole entry read first; overlaid image decoded and validated, INVALID/RANGE on failure; skip/stop predicates')
     ck.rule('C02.c', 'every failure result names an address inside both the request and the offending object (first such address)')
@@ -591,3 +592,6 @@ def run(ck):
     rule_e(ck, R)
     touch_helpers(R, 'C02.e', ('register_touch', 'register_was_touched'))
     callback_guard(R, 'C02.b', 'ra_malformed_write', inline={'reg_read_entry'})
+    from .common import reevaluate
+    reevaluate(ck, 'C02.g', 'c04', lambda r, k: r == 'C04.a' and k.startswith('flags:'),
+               'the always-fail constraint is lifted only while REG_TF_DURING_INIT is set: nothing but register_init sets that flag, and register_init clears it on every exit')
